@@ -184,9 +184,10 @@ inline void erase_at(T *first, SizeType count) {
 /// Requirements: n < count
 template <class T, class SizeType, typename std::enable_if<!std::is_trivially_copyable<T>::value, bool>::type = true>
 inline void fill(T *first, SizeType n, SizeType count, const T &v) {
-  // uninitialized fill first for slightly better exception safety
-  std::uninitialized_fill_n(first + n, count - n, v);
+  // assign first: if an assignment throws nothing has been constructed yet, and uninitialized_fill_n cleans up after
+  // itself, so no element is leaked beyond the size of the container
   std::fill_n(first, n, v);
+  std::uninitialized_fill_n(first + n, count - n, v);
 }
 
 template <class T, class SizeType, typename std::enable_if<std::is_trivially_copyable<T>::value, bool>::type = true>
